@@ -24,10 +24,10 @@ META = {
     "note": "Trusted: Lean kernel; hand-written model of shlex.split / split_cmd / _format_arg; oracle "
     "harness/engines/argv.py:spec_field_args(atomic=True); generator reach.",
     "rule": "case = C22 generator with str/Path elements over the adversarial alphabet (blank, tab, newline, CR, ' \" \\ $ * ; & | < > ( ) # ~, "
-    "non-ASCII incl. NBSP and an astral character, empty string) in plain, templated, cross-referencing, list and '...' fields; "
+    "non-ASCII incl. NBSP and an astral character, empty string; a third of the cases: brackets, commas and braces on a harmless alphabet) in plain, templated, cross-referencing, list and '...' fields; "
     "distinct by canonical JSON; non-trivial = at least one set str/Path element with a non-alphanumeric character",
     "assumptions": [
-        "values contain no '{' '}' '[' ']' (str.format injection and argstr_formatting's bracket clean-up are outside the alphabet)",
+        "values contain no '{{' / '}}' escapes, attribute/item lookups or conversions inside braces; braces in MultiInputObj elements of templated fields are not generated (not modelled)",
         "a list joined with a blank separator is expected as one argument per element",
     ],
     "trusted": ["model of shlex.split(posix=True) and split_cmd written by hand (lean/PydraModel/Argv/Shlex.lean)"],
@@ -43,6 +43,10 @@ OBLIGATIONS = [
         "C23_plain_own_argument_path_partial",
         "C23_templated_survives_partial",
         "C23_witness_strip",
+        "C23_witness_bracket",
+        "C23_witness_brace_error",
+        "C23_witness_brace_injection",
+        "C23_lowering_nobrace",
         "C23_witness_space",
         "C23_witness_quote",
         "C23_witness_backslash",
